@@ -3,6 +3,7 @@
 package main
 
 import (
+	bolt "go.etcd.io/bbolt"
 	"context"
 	"fmt"
 	"os"
@@ -171,6 +172,7 @@ func suClassify(fan string, from int64) (writes int, sweep bool, measure bool, f
 	suMu.Lock()
 	defer suMu.Unlock()
 	var vals []int
+	var seqs []int64
 	first, last = -1, -1
 	for _, e := range suEvents {
 		if e.fan != fan || e.seq <= from {
@@ -182,10 +184,10 @@ func suClassify(fan string, from int64) (writes int, sweep bool, measure bool, f
 		if strings.HasPrefix(e.what, "pwm=") {
 			v, _ := strconv.Atoi(strings.SplitN(e.what[4:], ":", 2)[0])
 			vals = append(vals, v)
+			seqs = append(seqs, e.seq)
 			if first < 0 {
 				first = e.seq
 			}
-			last = e.seq
 		}
 	}
 	writes = len(vals)
@@ -201,6 +203,14 @@ func suClassify(fan string, from int64) (writes int, sweep bool, measure bool, f
 			}
 			if ok {
 				sweep = true
+				// the sweep runs on down to 0
+				j := i + 200
+				for j+1 < len(vals) && vals[j+1] == vals[j]-1 {
+					j++
+				}
+				if seqs[j] > last {
+					last = seqs[j]
+				}
 				break
 			}
 		}
@@ -212,6 +222,9 @@ func suClassify(fan string, from int64) (writes int, sweep bool, measure bool, f
 			run++
 			if run >= 4 {
 				measure = true
+				if seqs[i] > last { // the analysis interval ends with the last write of a sweep / staircase: what the
+					last = seqs[i] // controller writes afterwards (restore on a stop request) is not analysis
+				}
 			}
 		} else {
 			run = 1
@@ -349,6 +362,16 @@ func init() {
 			return "ok"
 		case "su.start":
 			f := suFans[a.str("fan", "f1")]
+			if hold := a.int("hold_ms", 0); hold > 0 {
+				// another process (a `fan2go fan` command, a backup tool) holds the database file lock while the daemon
+				// starts: the controller has to WAIT for its stored data, not take the wait for "nothing stored"
+				if db, err := bolt.Open(suDb, 0600, nil); err == nil {
+					go func() {
+						time.Sleep(time.Duration(hold) * time.Millisecond)
+						_ = db.Close()
+					}()
+				}
+			}
 			res, from := suRunOne(f, context.Background(), true)
 			w, sweep, measure, _, _ := suClassify(f.id, from)
 			_ = w
@@ -543,6 +566,16 @@ func init() {
 			from := atomic.LoadInt64(&suSeq)
 			var wg sync.WaitGroup
 			results := make([]string, len(ids))
+			// cancel_us > 0: the daemon is told to stop (SIGTERM, a failing peer) that long after the starts began, i.e.
+			// while one fan is being analysed and others wait for their turn
+			tctx, tcancel := context.WithCancel(context.Background())
+			defer tcancel()
+			if c := a.int("cancel_us", 0); c > 0 {
+				go func() {
+					time.Sleep(time.Duration(c) * time.Microsecond)
+					tcancel()
+				}()
+			}
 			for i, id := range ids {
 				wg.Add(1)
 				go func(i int, id string) {
@@ -550,7 +583,7 @@ func init() {
 					if i < len(delays) {
 						time.Sleep(time.Duration(delays[i]) * time.Microsecond)
 					}
-					results[i], _ = suRunOne(suFans[id], context.Background(), true)
+					results[i], _ = suRunOne(suFans[id], tctx, true)
 				}(i, id)
 			}
 			wg.Wait()
